@@ -1,263 +1,111 @@
 /-
   C02 — parsing recovers the structure a well-formed document was written with.
 
-  `C02_full` is the full statement over the document grammar of `Pylx/Doc.lean` (every construct, every context);
-  `C02_core` proves it for the fragment `Doc.Core` (a decidable predicate on context and derivation: text of
-  letters / digits / `.,;:`, brace groups, comments ending in a newline plus indentation; context without a specials
-  string that starts with a text character), for every
-  derivation of the fragment (unbounded depth and length), every context satisfying `Doc.keysCore`, and every amount
-  of fuel that is large enough; `C02_core_top` is the instance for `parseTop`.
+  `C02_full` is the full statement over the document grammar of `Pylx/Doc.lean` (every construct, every context); it is
+  FALSE as stated (`C02_full_false`: `Doc.WF` admits a control word without post-space followed by a whitespace item).
+  `C02_core` proves the round trip for the fragment `Doc.Core` (a decidable predicate on context and derivation):
+  text of letters / digits / `.,;:`, whitespace items (fewer than two newlines) anywhere, brace groups, comments ending
+  in a newline plus indentation (and the whitespace behind it), calls of control-word macros whose signature (looked up
+  in the context) is made of `m` / `o` / `s` slots written as brace groups / bracket groups / stars or left out (any
+  argument mode deltas), inline and display math with the four delimiter pairs, specials without arguments; arbitrary
+  nesting; every context in which no specials string starts with a text character, `*`, `[` or `]` — for every
+  derivation of the fragment (unbounded depth and length) and every amount of fuel that is large enough
+  (`C02_core_run`), in particular the fuel `parseTop` uses (`C02_core`, `C02_core_ok`).
+
+  Architecture: `Ev` (result for all large fuel) + `run_mono`; `items_reach` / `args_reach` = prefix lemma over every
+  collector state, by mutual recursion on the derivation, one lemma per construct (`step_*`, `*_runs`).
 -/
-import PylxProofs.C02Loop
+import PylxProofs.C02Args
+import PylxProofs.C01
 namespace Pylx
 namespace C02
 open Doc
 
 section constructs
-variable {env : Env} {keys : List Str} {m : Bool} {md : Option Str} {stop : StopTok} {child : ChildPS}
+variable {env : Env} {keys : List Str}
 
-theorem Reaches.congr {f : PSFields} {st : LoopSt} {tr tr' : List Shape} {n : Nat} (h : mergeChars tr = mergeChars tr')
-    (hr : Reaches env f stop child st tr n) : Reaches env f stop child st tr' n := by
-  obtain ⟨st', h1, h2, h3⟩ := hr
-  exact ⟨st', h1, by rw [h2]; exact mergeChars_append_right _ h, h3⟩
+/-- `Reaches` with whitespace in hand: the collector stands in front of the whitespace `w` (not yet read) followed by
+    text that spells the shapes `trA`; it gets to a state in front of some whitespace `w'` followed by `tail`, and what
+    it has produced plus `w'` is what `w` plus `trA` stand for -/
+def ReachesW (env : Env) (L : PSFields) (stop : StopTok) (child : ChildPS) (st : LoopSt) (w : Str) (trA : List Shape)
+    (tail : Str) : Prop :=
+  ∃ tr n w', Reaches env L stop child st tr n ∧ env.s.drop (st.pos + n) = w' ++ tail ∧ isWs w' = true ∧ countNl w' < 2 ∧
+    mergeChars (tr ++ pendSh w') = mergeChars (pendSh w ++ trA)
 
-/-- one text character -/
-theorem reach_char (htol : env.tol = false) (hn : NormOk m md) (hk : keysCore keys = true) {st : LoopSt} {c : Char} {rest : Str}
-    (hd : env.s.drop st.pos = c :: rest) (hc : isTextChar c = true) :
-    Reaches env (stdF keys m md true) stop child st [.chars [c]] 1 := by
-  have hpk := peek_alpha (psStd_std keys m md true hn) hk hd hc
-  refine ⟨{ (st.push ([] ++ [c]) (st.pos - ([] : Str).length)) with pos := st.pos + 1 }, rfl, ?_, ?_⟩
-  · show mergeChars (shapeOfNodes st.acc ++ pendSh (st.pend ++ ([] ++ [c]))) = mergeChars ((shapeOfNodes st.acc ++ pendSh st.pend) ++ [.chars [c]])
-    rw [List.append_assoc]
-    exact mergeChars_append_right _ (pendSh_append st.pend [c] (by simp))
-  · intro R h
-    refine Ev.of_tail (fun rec => ?_) h
-    show loopStep env rec _ stop child st = _
-    rw [loopStep_tok htol hpk, stop_test_char stop _ (Or.inl rfl)]
-    rfl
+theorem ReachesW.step {L : PSFields} {stop : StopTok} {child : ChildPS} {st : LoopSt} {tr1 : List Shape} {n1 : Nat}
+    {w : Str} {x trB : List Shape} {tail : Str} (h1 : Reaches env L stop child st tr1 n1)
+    (hm : mergeChars tr1 = mergeChars (pendSh w ++ x))
+    (h2 : ∀ st1 : LoopSt, st1.pos = st.pos + n1 → ReachesW env L stop child st1 [] trB tail) :
+    ReachesW env L stop child st w (x ++ trB) tail := by
+  obtain ⟨st1, hp1, hs1, hk1⟩ := h1
+  obtain ⟨tr2, n2, w', ⟨st2, hp2, hs2, hk2⟩, hd2, hw2, hn2, hm2⟩ := h2 st1 hp1
+  refine ⟨tr1 ++ tr2, n1 + n2, w', ⟨st2, by omega, ?_, fun R h => hk1 R (hk2 R h)⟩, ?_, hw2, hn2, ?_⟩
+  · rw [hs2, ← List.append_assoc]
+    exact mergeChars_append_left hs1 tr2
+  · rw [← hd2, hp1, Nat.add_assoc]
+  · have e1 : mergeChars (tr2 ++ pendSh w') = mergeChars trB := by rw [hm2]; rfl
+    rw [List.append_assoc, mergeChars_append_right tr1 e1, mergeChars_append_left hm trB, List.append_assoc]
+
+theorem ReachesW.nil {L : PSFields} {stop : StopTok} {child : ChildPS} {st : LoopSt} {w tail : Str}
+    (hd : env.s.drop st.pos = w ++ tail) (hw : isWs w = true) (hn : countNl w < 2) :
+    ReachesW env L stop child st w [] tail :=
+  ⟨[], 0, w, Reaches.refl env L stop child st, hd, hw, hn, by rw [List.nil_append, List.append_nil]⟩
+
+section text
+variable {m br : Bool} {md : Option Str} {stop : StopTok} {child : ChildPS}
+
+/-- one text character behind whitespace -/
+theorem reach_char (htol : env.tol = false) (hn : NormOk m md) (hk : keysCore keys = true) {st : LoopSt} {w : Str} {c : Char}
+    {rest : Str} (hd : env.s.drop st.pos = w ++ c :: rest) (hw : isWs w = true) (hnl : countNl w < 2) (hc : isTextChar c = true) :
+    Reaches env (stdF keys m md true br) stop child st (pendSh w ++ pendSh [c]) (w.length + 1) := by
+  have hps := psStd_std keys m md true br hn
+  have hpk : peekImpl (mkPS (stdF keys m md true br)) env.s st.pos = _ :=
+    (peekImpl_ws hd hw hnl (textChar_ne hc).2.2.2.2.2).trans (peekAtChar_text hps hk (drop_add_of_drop hd) hc)
+  have := reach_charTok (stop := stop) (child := child) htol hpk rfl (by show st.pos ≤ st.pos + w.length + 1; omega)
+  have e : st.pos + w.length + 1 - st.pos = w.length + 1 := by omega
+  simp only [e] at this
+  exact this
 
 /-- a run of text characters becomes pending characters -/
 theorem reach_letters (htol : env.tol = false) (hn : NormOk m md) (hk : keysCore keys = true) :
     ∀ (t : Str) (st : LoopSt) (rest : Str), t.all isTextChar = true → env.s.drop st.pos = t ++ rest →
-      Reaches env (stdF keys m md true) stop child st (pendSh t) t.length
+      Reaches env (stdF keys m md true br) stop child st (pendSh t) t.length
   | [], st, _, _, _ => Reaches.refl env _ stop child st
   | c :: t, st, rest, hall, hd => by
     simp only [List.all_cons, Bool.and_eq_true] at hall
-    have h1 := reach_char (stop := stop) (child := child) htol hn hk (st := st) (by simpa using hd) hall.1
+    have h1 := reach_char (br := br) (stop := stop) (child := child) (w := []) htol hn hk (st := st) (by simpa using hd) rfl (by decide) hall.1
     have h2 := Reaches.trans h1 (fun st1 hp => reach_letters htol hn hk t st1 rest hall.2 (by
       rw [hp]; exact drop_succ_of_drop (by simpa using hd)))
-    have e : 1 + t.length = (c :: t).length := by simp; omega
+    have e : ([] : Str).length + 1 + t.length = (c :: t).length := by simp; omega
     rw [e] at h2
     refine Reaches.congr ?_ h2
     cases t with
     | nil => rfl
     | cons d t => rfl
 
-/-- a sub-parse started by the collector for a `{` token -/
-theorem reach_group (htol : env.tol = false) (hn : NormOk m md)
-    (hch : ∀ t, child.get (stdF keys m md true) t = stdF keys m md true) {st : LoopSt} {rest : Str}
-    (hd : env.s.drop st.pos = '{' :: rest) {g : Node} {p : Nat}
-    (hg : Ev env (.pc (.group (.auto ['{']) false false) (stdF keys m md true) st.pos) (.ok (.node g) p)) (hp : st.pos ≤ p) :
-    Reaches env (stdF keys m md true) stop child st [shapeOf g] (p - st.pos) := by
-  have hpk := peek_open (psStd_std keys m md true hn) hd
-  generalize htk : ({ kind := .braceOpen, arg := ['{'], pos := st.pos, posEnd := st.pos + 1 } : Token) = tk at hpk
-  have hpre : tk.pre = [] := by rw [← htk]
-  obtain ⟨hf1, hf2⟩ := sh_flushBefore (stdF keys m md true) st tk hpre
-  refine ⟨{ (st.flushBefore (stdF keys m md true) tk) with pos := p, acc := (st.flushBefore (stdF keys m md true) tk).acc ++ [g] },
-    by show p = st.pos + (p - st.pos); omega, ?_, ?_⟩
-  · show mergeChars (shapeOfNodes ((st.flushBefore (stdF keys m md true) tk).acc ++ [g]) ++ pendSh (st.flushBefore (stdF keys m md true) tk).pend) = _
-    rw [shapeOfNodes_append, hf1, hf2]
-    simp only [shapeOfNodes, pendSh, List.isEmpty_nil, if_true, List.append_nil]
-  · intro R h
-    obtain ⟨n1, h1⟩ := hg
-    obtain ⟨n2, h2⟩ := h
-    refine Ev.of_step ⟨max n1 n2, fun k hk => ?_⟩
-    show loopStep env (run env k) _ stop child st = R
-    rw [loopStep_tok htol hpk, stop_test_char stop _ (Or.inr (Or.inl (by rw [← htk])))]
-    have hkind : (tk.kind == TokKind.char) = false := by rw [← htk]; rfl
-    rw [hkind]
-    simp only [Bool.false_eq_true, if_false]
-    have hk2 : tk.kind = .braceOpen := by rw [← htk]
-    have e1 : tk.arg = ['{'] := by rw [← htk]
-    have e2 : tk.pos = st.pos := by rw [← htk]
-    unfold loopDispatch
-    simp only [hk2, e1, e2]
-    rw [hch, h1 k (by omega)]
-    unfold afterChild
-    exact h2 k (by omega)
+/-- a text item behind whitespace -/
+theorem reach_text (htol : env.tol = false) (hn : NormOk m md) (hk : keysCore keys = true) {st : LoopSt} {w t rest : Str}
+    (hd : env.s.drop st.pos = w ++ (t ++ rest)) (hw : isWs w = true) (hnl : countNl w < 2) (hne : t ≠ [])
+    (hall : t.all isTextChar = true) :
+    Reaches env (stdF keys m md true br) stop child st (pendSh w ++ [.chars t]) (w.length + t.length) := by
+  cases t with
+  | nil => exact absurd rfl hne
+  | cons c t =>
+    simp only [List.all_cons, Bool.and_eq_true] at hall
+    have h1 := reach_char (br := br) (stop := stop) (child := child) htol hn hk (st := st) (by simpa using hd) hw hnl hall.1
+    have h2 := Reaches.trans h1 (fun st1 hp => reach_letters (br := br) htol hn hk t st1 rest hall.2 (by
+      rw [hp, ← Nat.add_assoc]
+      exact drop_succ_of_drop (drop_add_of_drop (by simpa using hd))))
+    have e : w.length + 1 + t.length = w.length + (c :: t).length := by simp; omega
+    rw [e] at h2
+    refine Reaches.congr ?_ h2
+    rw [List.append_assoc]
+    apply mergeChars_append_right
+    cases t with
+    | nil => rfl
+    | cons d t => rfl
 
-/-- a comment with its newline and indentation -/
-theorem reach_comment (htol : env.tol = false) (hn : NormOk m md) {st : LoopSt} {text ind r : Str}
-    (hd : env.s.drop st.pos = '%' :: (text ++ '\n' :: (ind ++ r))) (htext : text.contains '\n' = false)
-    (hws : isWs ('\n' :: ind) = true) (hnl : countNl ('\n' :: ind) < 2) (hr : headIs isPySpace r = false) :
-    Reaches env (stdF keys m md true) stop child st [.comment text] (1 + text.length + (1 + ind.length)) := by
-  have hpk := peek_comment (psStd_std keys m md true hn) hd htext hws hnl hr
-  generalize htk : ({ kind := .comment, arg := text, pos := st.pos, posEnd := st.pos + 1 + text.length + (1 + ind.length),
-                      pre := [], post := '\n' :: ind } : Token) = tk at hpk
-  have hpre : tk.pre = [] := by rw [← htk]
-  obtain ⟨hf1, hf2⟩ := sh_flushBefore (stdF keys m md true) st tk hpre
-  refine ⟨{ (st.flushBefore (stdF keys m md true) tk) with pos := tk.posEnd, acc := (st.flushBefore (stdF keys m md true) tk).acc ++ [Node.comment tk.pos tk.posEnd (psInfo (stdF keys m md true)) tk.arg tk.post] }, ?_, ?_, ?_⟩
-  · show tk.posEnd = _
-    rw [← htk]; show st.pos + 1 + text.length + (1 + ind.length) = _; omega
-  · show mergeChars (shapeOfNodes ((st.flushBefore (stdF keys m md true) tk).acc ++ [_]) ++ pendSh (st.flushBefore (stdF keys m md true) tk).pend) = _
-    rw [shapeOfNodes_append, hf1, hf2]
-    have : tk.arg = text := by rw [← htk]
-    simp only [shapeOfNodes, shapeOf, pendSh, List.isEmpty_nil, if_true, List.append_nil, this]
-  · intro R h
-    refine Ev.of_tail (fun rec => ?_) h
-    show loopStep env rec _ stop child st = _
-    rw [loopStep_tok htol hpk, stop_test_char stop _ (Or.inr (Or.inr (Or.inr (by rw [← htk]))))]
-    have hkind : (tk.kind == TokKind.char) = false := by rw [← htk]; rfl
-    rw [hkind]
-    simp only [Bool.false_eq_true, if_false]
-    have hk2 : tk.kind = .comment := by rw [← htk]
-    unfold loopDispatch
-    simp only [hk2]
-
-theorem core_head (tl : List Item) (rest : Str) (hc : coreItems tl = true) (hr : headIs isPySpace rest = false) :
-    headIs isPySpace (unparseItems tl ++ rest) = false := by
-  cases tl with
-  | nil => simpa [unparseItems] using hr
-  | cons it tl =>
-    cases it with
-    | T t =>
-      simp only [coreItems, Bool.and_eq_true, Bool.not_eq_eq_eq_not, Bool.not_true] at hc
-      cases t with
-      | nil => simp at hc
-      | cons c t =>
-        have := (textChar_ne (c := c) (by have := hc.1.2; simp only [List.all_cons, Bool.and_eq_true] at this; exact this.1)).2.2.2.2.2
-        simp [unparseItems, headIs, this]
-    | G b =>
-      have : isPySpace '{' = false := by decide
-      simp [unparseItems, headIs, this]
-    | C text tail =>
-      have : isPySpace '%' = false := by decide
-      simp [unparseItems, headIs, this]
-    | _ => simp [coreItems] at hc
-
-theorem treeRaw_prev (ctx : Ctx) (prev : Option Str) (tl : List Item) (hc : coreItems tl = true) :
-    treeRaw ctx prev tl = treeRaw ctx none tl := by
-  cases tl with
-  | nil => simp only [treeRaw]
-  | cons it tl =>
-    cases it with
-    | T t => simp only [treeRaw]
-    | G b => simp only [treeRaw]
-    | C text tail => simp only [treeRaw]
-    | _ => simp [coreItems] at hc
-
-/-! ### ends of the collector loop, the general-nodes parser, the group parser -/
-
-theorem sh_init (pos : Nat) : sh ({ pos := pos } : LoopSt) = [] := rfl
-
-/-- the collector in front of the closing brace it was asked to stop at -/
-theorem loop_close (htol : env.tol = false) (hn : NormOk m md) {st : LoopSt} {rest : Str}
-    (hd : env.s.drop st.pos = '}' :: rest) :
-    ∃ e : LoopEnd, Ev env (.loop (stdF keys m md true) (.braceClose ['}']) child st) (.loopEnd e) ∧
-      shapeOfNodes e.nodes = sh st ∧ e.err = none ∧ ∃ t, e.stopTok = some t ∧ t.posEnd = st.pos + 1 := by
-  have hpk := peek_close (psStd_std keys m md true hn) hd
-  let tk : Token := { kind := .braceClose, arg := ['}'], pos := st.pos, posEnd := st.pos + 1 }
-  let st1 : LoopSt := { (st.push [] (st.pos - ([] : Str).length)) with pos := st.pos }
-  refine ⟨{ nodes := (st1.flush (stdF keys m md true)).acc, pos := (st1.flush (stdF keys m md true)).pos,
-            stopTok := some tk, err := none }, Ev.of_const (fun rec => ?_), ?_, rfl, tk, rfl, rfl⟩
-  · show loopStep env rec _ _ child st = _
-    rw [loopStep_tok htol hpk]
-    have : StopTok.test (.braceClose ['}']) { kind := .braceClose, arg := ['}'], pos := st.pos, posEnd := st.pos + 1 } = true := rfl
-    rw [this]
-    simp only [if_true]
-    unfold loopFinish
-    rfl
-  · show shapeOfNodes (st1.flush _).acc = _
-    rw [(sh_flush (stdF keys m md true) st1).1]
-    show shapeOfNodes st.acc ++ pendSh (st.pend ++ []) = _
-    rw [List.append_nil]; rfl
-
-/-- the collector at the end of the input -/
-theorem loop_eos (htol : env.tol = false) (f : PSFields) {st : LoopSt} (hd : env.s.drop st.pos = []) :
-    ∃ e : LoopEnd, Ev env (.loop f stop child st) (.loopEnd e) ∧
-      shapeOfNodes e.nodes = sh st ∧ e.err = none ∧ e.stopTok = none ∧ e.pos = st.pos := by
-  have hpk := peek_eos (mkPS f) hd
-  refine ⟨{ nodes := (st.flush f).acc, pos := (st.flush f).pos, stopTok := none, err := none },
-    Ev.of_const (fun rec => ?_), (sh_flush f st).1, rfl, rfl, (sh_flush f st).2.2⟩
-  show loopStep env rec _ _ child st = _
-  rw [loopStep_eos htol hpk]
-  unfold loopFinish
-  rfl
-
-theorem general_of_loop_close {f : PSFields} {c : Str} {pos : Nat} {e : LoopEnd} {t : Token} (htol : env.tol = false)
-    (hl : Ev env (.loop f (.braceClose c) child { pos := pos }) (.loopEnd e)) (herr : e.err = none)
-    (hst : e.stopTok = some t) :
-    Ev env (.pc (.general (.braceClose c) true child) f pos) (.ok (.list
-      (match e.nodes.head? with | some n => some n.pos | none => some pos)
-      (match e.nodes.getLast? with | some n => some n.posEnd | none => some pos) e.nodes) t.posEnd) := by
-  obtain ⟨n, hn⟩ := hl
-  refine Ev.of_step ⟨n, fun k hk => ?_⟩
-  show parseContent env.tol (rawGeneral (run env k) (.braceClose c) true child f pos) = _
-  unfold rawGeneral
-  rw [hn k hk, htol]
-  unfold retOfLoop
-  simp only [herr, hst, StopTok.isSome, Option.isNone_some, Bool.and_false, Bool.false_eq_true, if_false, if_true,
-    movePastToken, listOf]
-  rfl
-
-theorem general_of_loop_top {f : PSFields} {e : LoopEnd} (htol : env.tol = false)
-    (hl : Ev env (.loop f .none .same { pos := 0 }) (.loopEnd e)) (herr : e.err = none) (hst : e.stopTok = none) :
-    Ev env (topTask f) (.ok (.list
-      (match e.nodes.head? with | some n => some n.pos | none => some 0)
-      (match e.nodes.getLast? with | some n => some n.posEnd | none => some 0) e.nodes) e.pos) := by
-  obtain ⟨n, hn⟩ := hl
-  refine Ev.of_step ⟨n, fun k hk => ?_⟩
-  show parseContent env.tol (rawGeneral (run env k) .none true .same f 0) = _
-  unfold rawGeneral
-  rw [hn k hk, htol]
-  unfold retOfLoop
-  simp only [herr, hst, StopTok.isSome, Bool.and_false, Bool.false_and, Bool.false_eq_true, if_false, listOf]
-  rfl
-
-/-- the body of a brace group -/
-theorem body_runs (htol : env.tol = false) (hn : NormOk m md) {pos n : Nat} {tr : List Shape} {rest : Str}
-    (hr : Reaches env (stdF keys m md true) (.braceClose ['}']) child { pos := pos } tr n)
-    (hd : env.s.drop (pos + n) = '}' :: rest) :
-    ∃ a b ns, Ev env (.pc (.general (.braceClose ['}']) true child) (stdF keys m md true) pos) (.ok (.list a b ns) (pos + n + 1)) ∧
-      mergeChars (shapeOfNodes ns) = mergeChars tr := by
-  obtain ⟨st', hp, hs, hk⟩ := hr
-  have hp' : st'.pos = pos + n := hp
-  obtain ⟨e, he, hsh, herr, t, hst, hte⟩ := loop_close (keys := keys) (child := child) htol hn (st := st') (by rw [hp']; exact hd)
-  have := general_of_loop_close htol (hk _ he) herr hst
-  rw [hte, hp'] at this
-  refine ⟨_, _, e.nodes, this, ?_⟩
-  rw [hsh, hs, sh_init, List.nil_append]
-
-/-- `LatexDelimitedGroupParser` on `{ body }` -/
-theorem group_runs (htol : env.tol = false) (hn : NormOk m md) {pos p : Nat} {rest : Str} {a b : Option Nat} {ns : List Node}
-    (hd : env.s.drop pos = '{' :: rest)
-    (hb : Ev env (.pc (.general (.braceClose ['}']) true (.group ['{'] (stdF keys m md true) (stdF keys m md true)))
-      (stdF keys m md true) (pos + 1)) (.ok (.list a b ns) p)) :
-    Ev env (.pc (.group (.auto ['{']) false false) (stdF keys m md true) pos)
-      (.ok (.node (Node.group pos p (psInfo (stdF keys m md true)) ['{'] ['}'] (some ns))) p) := by
-  have hpk := peek_open (psStd_std keys m md true hn) hd
-  obtain ⟨n, hb⟩ := hb
-  refine Ev.of_step ⟨n, fun k hk => ?_⟩
-  show parseContent env.tol (rawGroup env (run env k) (.auto ['{']) false false (stdF keys m md true) pos) = _
-  unfold rawGroup
-  have hgs : groupState (.auto ['{']) (stdF keys m md true) = some (stdF keys m md true) := by
-    unfold groupState
-    rw [(psStd_std keys m md true hn).go]
-    rfl
-  rw [hgs]
-  simp only
-  rw [htol, peekTok_false, hpk]
-  simp only
-  unfold rawGroupTok
-  have hgc : groupCloser (.auto ['{']) (stdF keys m md true) = some ['}'] := by
-    unfold groupCloser
-    rw [(psStd_std keys m md true hn).go]
-    rfl
-  rw [hgc]
-  simp only [GroupDelims.opener, List.isEmpty_nil, Bool.not_true, Bool.and_false, Bool.not_false, Bool.true_and,
-    beq_self_eq_true]
-  rw [hb k hk]
-  rfl
+end text
 
 theorem child_same (f : PSFields) (t : Token) : ChildPS.same.get f t = f := rfl
 
@@ -265,86 +113,636 @@ theorem child_group (o : Str) (f : PSFields) (t : Token) : (ChildPS.group o f f)
   unfold ChildPS.get
   simp
 
+theorem child_br (g K : PSFields) (t : Token) (h : t.arg ≠ ['[']) : (ChildPS.group ['['] g K).get g t = K := by
+  show (if (t.kind == TokKind.braceOpen && t.arg == ['[']) = true then g else K) = K
+  have : (t.arg == ['[']) = false := by simpa using h
+  rw [this, Bool.and_false]
+  rfl
+
+theorem stop_brace_math (c : Str) (t : Token) (h : t.kind = .mathInline ∨ t.kind = .mathDisplay) :
+    (StopTok.braceClose c).test t = false := by
+  rcases h with h | h <;> (simp only [StopTok.test, h]; rfl)
+
+theorem followOk_of_head {c : Char} {r : Str} (hc : isPySpace c = false) (hc2 : c ≠ '\\') : absentFollowOk (c :: r) = true := by
+  unfold absentFollowOk
+  simp only [List.takeWhile_cons, List.dropWhile_cons, hc, Bool.false_eq_true, if_false]
+  have : escSafe (c :: r) = true := by
+    unfold escSafe
+    split
+    · rename_i h; cases h; exact absurd rfl hc2
+    · rfl
+  rw [this]
+  rfl
+
+theorem applyDelta_std (m : Bool) (md : Option Str) (d : Delta) :
+    ∃ md', applyDelta (stdF keys m md true) d = stdF keys (deltaMath m d) md' true ∧ (NormOk m md → NormOk (deltaMath m d) md') := by
+  cases d with
+  | none => exact ⟨md, rfl, fun h => h⟩
+  | enterMath => exact ⟨none, rfl, fun _ _ => rfl⟩
+  | leaveMath => exact ⟨none, rfl, fun _ _ => rfl⟩
+
+/-- the first character of a non-empty body in math mode is not `$` -/
+theorem core_head_not_dollar (ctx : Ctx) (after : Str) : ∀ (b : List Item), coreItems ctx true after b = true →
+    ∀ rest, isWs (unparseItems b) = false → headIs (· == '$') (unparseItems b ++ rest) = false
+  | [], _, _, h => by simp [unparseItems, isWs] at h
+  | .T t :: tl, hc, rest, _ => by
+    simp only [coreItems, Bool.and_eq_true, Bool.not_eq_eq_eq_not, Bool.not_true] at hc
+    cases t with
+    | nil => simp at hc
+    | cons c t =>
+      have := hc.1.2
+      simp only [List.all_cons, Bool.and_eq_true] at this
+      have := (textChar_ne this.1).1
+      simp [unparseItems, headIs, this]
+  | .W w :: tl, hc, rest, _ => by
+    simp only [coreItems, Bool.and_eq_true, Bool.not_eq_eq_eq_not, Bool.not_true] at hc
+    cases w with
+    | nil => simp at hc
+    | cons c w =>
+      have h1 := hc.1.1.1.2
+      simp only [isWs, List.all_cons, Bool.and_eq_true] at h1
+      have h2 := h1.1
+      have : c ≠ '$' := by intro e; subst e; revert h2; decide
+      simp [unparseItems, headIs, this]
+  | .G b :: tl, _, rest, _ => by simp [unparseItems, headIs]
+  | .C text tail :: tl, _, rest, _ => by simp [unparseItems, headIs]
+  | .M name post args :: tl, _, rest, _ => by simp [unparseItems, headIs]
+  | .F k b :: tl, hc, rest, _ => by simp [coreItems] at hc
+  | .P _ :: _, hc, _, _ => by simp [coreItems] at hc
+  | .E _ _ _ :: _, hc, _, _ => by simp [coreItems] at hc
+  | .S name args :: tl, hc, rest, _ => by
+    simp only [coreItems, Bool.and_eq_true] at hc
+    cases name with
+    | nil => simp [headIs] at hc
+    | cons c name' =>
+      have := (specialsHead_ne (c := c) (by simpa [headIs] using hc.1.1.1.2)).2.2.2.2.2.1
+      simp [unparseItems, headIs, this]
+  | .V _ _ :: _, hc, _, _ => by simp [coreItems] at hc
+  | .VE _ _ _ _ :: _, hc, _, _ => by simp [coreItems] at hc
+
+/-! ### one lemma per construct (the recursive parts are hypotheses) -/
+
+section steps
+variable {m : Bool} {md : Option Str}
+
+/-- `{ body }` parsed by the group parser -/
+theorem group_node (htol : env.tol = false) (hn : NormOk m md) {q : Nat} {X Y : Str} {trb : List Shape}
+    (hd : env.s.drop q = '{' :: X)
+    (hbody : ReachesW env (stdF keys m md true) (.braceClose ['}']) (.group ['{'] (stdF keys m md true) (stdF keys m md true))
+      { pos := q + 1 } [] trb ('}' :: Y)) :
+    ∃ p nd, q ≤ p ∧ env.s.drop p = Y ∧
+      Ev env (.pc (.group (.auto ['{']) false false) (stdF keys m md true) q) (.ok (.node nd) p) ∧
+      shapeOf nd = .group ['{'] ['}'] (some (normList trb)) := by
+  obtain ⟨tr, n, w', hreach, hdrop, hw', hn', hm⟩ := hbody
+  have hdrop' : env.s.drop (q + 1 + n) = w' ++ '}' :: Y := hdrop
+  have hps := psStd_std keys m md true false hn
+  have hpkc : peekImpl (mkPS (stdF keys m md true)) env.s (q + 1 + n) = _ :=
+    (peekImpl_ws hdrop' hw' hn' (by decide)).trans (peekAtChar_close hps (drop_add_of_drop hdrop'))
+  obtain ⟨a, b, ns, hgen, hsh⟩ := body_runs htol hreach hpkc rfl rfl
+  have hgrp := group_runs htol hn hd hgen
+  refine ⟨_, _, ?_, drop_succ_of_drop (drop_add_of_drop hdrop'), hgrp, ?_⟩
+  · show q ≤ q + 1 + n + w'.length + 1; omega
+  · simp only [shapeOf, shapeOfBody]
+    rw [normList_congr (hsh.trans hm)]
+    rfl
+
+/-- `[ body ]` parsed by the group parser of an optional argument -/
+theorem brgroup_node (htol : env.tol = false) (hn : NormOk m md) (ap : Bool) {q : Nat} {X Y : Str} {trb : List Shape}
+    (hd : env.s.drop q = '[' :: X)
+    (hbody : ReachesW env (stdF keys m md true true) (.braceClose [']']) (.group ['['] (stdF keys m md true true) (stdF keys m md true))
+      { pos := q + 1 } [] trb (']' :: Y)) :
+    ∃ p nd, q ≤ p ∧ env.s.drop p = Y ∧
+      Ev env (.pc (.group (.pair ['['] [']']) true ap) (stdF keys m md true) q) (.ok (.node nd) p) ∧
+      shapeOf nd = .group ['['] [']'] (some (normList trb)) := by
+  obtain ⟨tr, n, w', hreach, hdrop, hw', hn', hm⟩ := hbody
+  have hdrop' : env.s.drop (q + 1 + n) = w' ++ ']' :: Y := hdrop
+  have hps := psStd_std keys m md true true hn
+  have hpkc : peekImpl (mkPS (stdF keys m md true true)) env.s (q + 1 + n) = _ :=
+    (peekImpl_ws hdrop' hw' hn' (by decide)).trans (peekAtChar_bclose hps (drop_add_of_drop hdrop'))
+  obtain ⟨a, b, ns, hgen, hsh⟩ := body_runs htol hreach hpkc rfl rfl
+  have hgrp := brgroup_runs htol hn ap hd hgen
+  refine ⟨_, _, ?_, drop_succ_of_drop (drop_add_of_drop hdrop'), hgrp, ?_⟩
+  · show q ≤ q + 1 + n + w'.length + 1; omega
+  · simp only [shapeOf, shapeOfBody]
+    rw [normList_congr (hsh.trans hm)]
+    rfl
+
+variable {br : Bool} {stop : StopTok} {child : ChildPS}
+
+/-- a brace group in the collector -/
+theorem step_group (htol : env.tol = false) (hn : NormOk m md)
+    (hch : ∀ t : Token, t.arg ≠ ['['] → child.get (stdF keys m md true br) t = stdF keys m md true)
+    {st : LoopSt} {w X Y : Str} {trb : List Shape} (hd : env.s.drop st.pos = w ++ ('{' :: X)) (hw : isWs w = true)
+    (hnl : countNl w < 2)
+    (hbody : ReachesW env (stdF keys m md true) (.braceClose ['}']) (.group ['{'] (stdF keys m md true) (stdF keys m md true))
+      { pos := st.pos + w.length + 1 } [] trb ('}' :: Y)) :
+    ∃ p, st.pos ≤ p ∧ env.s.drop p = Y ∧
+      Reaches env (stdF keys m md true br) stop child st (pendSh w ++ [.group ['{'] ['}'] (some (normList trb))]) (p - st.pos) := by
+  have hdq : env.s.drop (st.pos + w.length) = '{' :: X := drop_add_of_drop hd
+  obtain ⟨p, nd, hqp, hdp, hgrp, hshape⟩ := group_node htol hn hdq hbody
+  have hps := psStd_std keys m md true br hn
+  have hpk : peekImpl (mkPS (stdF keys m md true br)) env.s st.pos = _ :=
+    (peekImpl_ws hd hw hnl (by decide)).trans (peekAtChar_open hps hdq)
+  refine ⟨p, by omega, hdp, ?_⟩
+  have := reach_dispatch (stop := stop) (child := child) htol hpk (stop_test_char stop _ (Or.inr (Or.inl rfl))) rfl (by omega)
+    (dispatch_group (K := stdF keys m md true) rfl (hch _ (by show ['{'] ≠ ['[']; decide)) hgrp)
+  rw [hshape] at this
+  exact this
+
+/-- a comment with its newline and the whitespace behind it -/
+theorem step_comment (htol : env.tol = false) (hn : NormOk m md) {st : LoopSt} {w text post r : Str}
+    (hd : env.s.drop st.pos = w ++ ('%' :: (text ++ '\n' :: (post ++ r)))) (hw : isWs w = true) (hnl : countNl w < 2)
+    (htext : text.contains '\n' = false) (hws : isWs ('\n' :: post) = true) (hnl2 : countNl ('\n' :: post) < 2)
+    (hr : headIs isPySpace r = false) :
+    ∃ p, st.pos ≤ p ∧ env.s.drop p = r ∧
+      Reaches env (stdF keys m md true br) stop child st (pendSh w ++ [.comment text]) (p - st.pos) := by
+  have hdq : env.s.drop (st.pos + w.length) = '%' :: (text ++ '\n' :: (post ++ r)) := drop_add_of_drop hd
+  have hps := psStd_std keys m md true br hn
+  have hpk : peekImpl (mkPS (stdF keys m md true br)) env.s st.pos = _ :=
+    (peekImpl_ws hd hw hnl (by decide)).trans (peekAtChar_comment hps hdq htext hws hnl2 hr)
+  refine ⟨st.pos + w.length + 1 + text.length + (1 + post.length), by omega, ?_, ?_⟩
+  · have d1 := drop_succ_of_drop hdq
+    have d2 := drop_add_of_drop d1
+    have d3 := drop_succ_of_drop d2
+    have d4 := drop_add_of_drop d3
+    rw [← d4]; congr 1; omega
+  · exact reach_dispatch (stop := stop) (child := child) htol hpk
+      (stop_test_char stop _ (Or.inr (Or.inr (Or.inr (Or.inl rfl))))) rfl
+      (by show st.pos ≤ st.pos + w.length + 1 + text.length + (1 + post.length); omega) (dispatch_comment rfl)
+
+/-- a macro call in the collector -/
+theorem step_macro (htol : env.tol = false) (hn : NormOk m md)
+    (hch : ∀ t : Token, t.arg ≠ ['['] → child.get (stdF keys m md true br) t = stdF keys m md true)
+    {st : LoopSt} {w post R : Str} {c0 : Char} {name' : Str} {sig : List ArgSpec} {al : List Arg} {pA : Nat}
+    (hd : env.s.drop st.pos = w ++ ('\\' :: ((c0 :: name') ++ (post ++ R)))) (hw : isWs w = true) (hnl : countNl w < 2)
+    (hname : (c0 :: name').all isAsciiAlpha = true) (hnext : headIs isAsciiAlpha (post ++ R) = false)
+    (hws : isWs post = true) (hnl2 : countNl post < 2) (hr : headIs isPySpace R = false)
+    (hb : (c0 :: name') ≠ "begin".toList) (he : (c0 :: name') ≠ "end".toList)
+    (hspec : env.ctx.macroSpec (c0 :: name') = some (.std sig))
+    (hargs : ArgsEv env (stdF keys m md true) sig [] (st.pos + w.length + 1 + (c0 :: name').length + post.length)
+      (.ok (.args none none al) pA))
+    (hpA : st.pos ≤ pA) :
+    Reaches env (stdF keys m md true br) stop child st (pendSh w ++ [.mac (c0 :: name') (some (shapeOfArgList al))]) (pA - st.pos) := by
+  have hdq : env.s.drop (st.pos + w.length) = '\\' :: ((c0 :: name') ++ (post ++ R)) := drop_add_of_drop hd
+  have hps := psStd_std keys m md true br hn
+  have hpk : peekImpl (mkPS (stdF keys m md true br)) env.s st.pos = _ :=
+    (peekImpl_ws hd hw hnl (by decide)).trans (peekAtChar_macro hps (stdExpect_cases m md) hdq hname hnext hws hnl2 hr hb he)
+  have hc0 : (c0 :: name') ≠ ['['] := by
+    intro e
+    simp only [List.all_cons, Bool.and_eq_true] at hname
+    have : c0 = '[' := by simpa using (List.cons.inj e).1
+    subst this
+    have := hname.1
+    revert this; decide
+  have hcall := macroCall_runs (t := ({ kind := TokKind.macro, arg := (c0 :: name'), pos := st.pos + w.length, posEnd := st.pos + w.length + 1 + (c0 :: name').length + post.length, pre := [], post := post } : Token)) (arguments_runs hargs)
+  exact reach_dispatch (stop := stop) (child := child) htol hpk
+    (stop_test_char stop _ (Or.inr (Or.inr (Or.inl rfl)))) rfl hpA
+    (dispatch_macro (K := stdF keys m md true) rfl hspec (hch _ hc0) hcall)
+
+/-- a specials item in the collector -/
+theorem step_specials (htol : env.tol = false) (hn : NormOk m md)
+    (hch : ∀ t : Token, t.arg ≠ ['['] → child.get (stdF keys m md true br) t = stdF keys m md true)
+    {st : LoopSt} {w R : Str} {c : Char} {name' : Str}
+    (hd : env.s.drop st.pos = w ++ ((c :: name') ++ R)) (hw : isWs w = true) (hnl : countNl w < 2)
+    (hc : specialsHeadOk c = true) (hts : testSpecials keys ((c :: name') ++ R) 0 = some (c :: name'))
+    (hspec : lookupFirst (c :: name') env.ctx.specials = some (.std [])) :
+    Reaches env (stdF keys m md true br) stop child st (pendSh w ++ [.specials (c :: name') []]) (w.length + (c :: name').length) := by
+  have hdq : env.s.drop (st.pos + w.length) = (c :: name') ++ R := drop_add_of_drop hd
+  have hps := psStd_std keys m md true br hn
+  have hcs := specialsHead_ne hc
+  have hpk : peekImpl (mkPS (stdF keys m md true br)) env.s st.pos = _ :=
+    (peekImpl_ws (c := c) (rest := name' ++ R) (by rw [hd]; rfl) hw hnl hcs.1).trans (peekAtChar_specials hps hdq hc hts)
+  have hc0 : (c :: name') ≠ ['['] := by
+    intro e
+    have : c = '[' := by simpa using (List.cons.inj e).1
+    exact hcs.2.2.2.2.2.2.1 this
+  have hcall := specialsCall_runs (t := ({ kind := TokKind.specials, arg := (c :: name'), pos := st.pos + w.length, posEnd := st.pos + w.length + (c :: name').length, pre := [] } : Token))
+    (arguments_runs (argsEv_nil (env := env) (stdF keys m md true) [] (st.pos + w.length + (c :: name').length)))
+  have := reach_dispatch (stop := stop) (child := child) htol hpk
+    (stop_test_char stop _ (Or.inr (Or.inr (Or.inr (Or.inr (Or.inl rfl)))))) rfl
+    (by show st.pos ≤ st.pos + w.length + (c :: name').length; omega)
+    (dispatch_specials (K := stdF keys m md true) rfl hspec (hch _ hc0) hcall)
+  have e : st.pos + w.length + (c :: name').length - st.pos = w.length + (c :: name').length := by omega
+  rw [e] at this
+  exact this
+
+end steps
+
+/-- math in the collector -/
+theorem step_math (htol : env.tol = false) (k : FKind) {br : Bool} {stop : StopTok} {child : ChildPS}
+    (hch : ∀ t : Token, t.arg ≠ ['['] → child.get (stdF keys false none true br) t = stdF keys false none true)
+    (hstop : ∀ t : Token, t.kind = .mathInline ∨ t.kind = .mathDisplay → stop.test t = false)
+    {st : LoopSt} {w X Y : Str} {trb : List Shape} (hd : env.s.drop st.pos = w ++ (k.opener ++ X)) (hw : isWs w = true)
+    (hnl : countNl w < 2) (hdollar : k = .dollar → headIs (· == '$') X = false)
+    (hbody : ReachesW env (stdF keys true (some k.opener) true) (.mathClose k.display k.closer) .same
+      { pos := st.pos + w.length + k.opener.length } [] trb (k.closer ++ Y)) :
+    ∃ p, st.pos ≤ p ∧ env.s.drop p = Y ∧
+      Reaches env (stdF keys false none true br) stop child st
+        (pendSh w ++ [.math k.display k.opener k.closer (some (normList trb))]) (p - st.pos) := by
+  have hdq : env.s.drop (st.pos + w.length) = k.opener ++ X := drop_add_of_drop hd
+  obtain ⟨tr, n, w', hreach, hdrop, hw', hn', hm⟩ := hbody
+  have hdrop' : env.s.drop (st.pos + w.length + k.opener.length + n) = w' ++ (k.closer ++ Y) := hdrop
+  -- the closer
+  obtain ⟨cc, rc, hcc⟩ : ∃ c r0, k.closer = c :: r0 := by cases k <;> exact ⟨_, _, rfl⟩
+  have hccs : isPySpace cc = false := by cases k <;> (cases hcc; decide)
+  have hpsM : PSStd keys true true (some (k.closer, k.display)) false (mkPS (stdF keys true (some k.opener) true)) := by
+    have := psStd_std keys true (some k.opener) true false (normOk_true _)
+    rw [stdExpect_opener] at this
+    exact this
+  have hpkc : peekImpl (mkPS (stdF keys true (some k.opener) true)) env.s (st.pos + w.length + k.opener.length + n) =
+      .tok (mathTok (st.pos + w.length + k.opener.length + n + w'.length) w' k.closer k.display) :=
+    (peekImpl_ws (c := cc) (rest := rc ++ Y) (by rw [hdrop', hcc]; rfl) hw' hn' hccs).trans
+      (peekAtChar_mathClose k hpsM (drop_add_of_drop hdrop') (by rw [hcc]; rfl))
+  have hst : (StopTok.mathClose k.display k.closer).test (mathTok (st.pos + w.length + k.opener.length + n + w'.length) w' k.closer k.display) = true := by
+    cases k <;> rfl
+  obtain ⟨a, b, ns, hgen, hsh⟩ := body_runs htol hreach hpkc hst rfl
+  have hmath := math_runs htol k hdq hdollar hgen
+  -- the opener
+  obtain ⟨co, ro, hco⟩ : ∃ c r0, k.opener = c :: r0 := by cases k <;> exact ⟨_, _, rfl⟩
+  have hcos : isPySpace co = false := by cases k <;> (cases hco; decide)
+  have hps := psStd_std keys false none true br (fun _ => rfl)
+  have hpk : peekImpl (mkPS (stdF keys false none true br)) env.s st.pos = .tok (mathTok (st.pos + w.length) w k.opener k.display) :=
+    (peekImpl_ws (c := co) (rest := ro ++ X) (by rw [hd, hco]; rfl) hw hnl hcos).trans
+      (peekAtChar_mathOpen hps k hdq hdollar (by rw [hco]; rfl))
+  have hkindm : (mathTok (st.pos + w.length) w k.opener k.display).kind = .mathInline ∨ (mathTok (st.pos + w.length) w k.opener k.display).kind = .mathDisplay := by
+    cases k <;> first | exact Or.inl rfl | exact Or.inr rfl
+  have hkc : ((mathTok (st.pos + w.length) w k.opener k.display).kind == TokKind.char) = false := by cases k <;> rfl
+  have hopen : (mkPS (stdF keys false none true br)).t.mathByOpen.any (fun d => d.1 == k.opener) = true := by
+    rw [hps.byOpen]; cases k <;> rfl
+  have harg : k.opener ≠ ['['] := by cases k <;> decide
+  have hposEnd : (mathTok (st.pos + w.length + k.opener.length + n + w'.length) w' k.closer k.display).posEnd
+      = st.pos + w.length + k.opener.length + n + w'.length + k.closer.length := rfl
+  rw [hposEnd] at hgen hmath
+  refine ⟨st.pos + w.length + k.opener.length + n + w'.length + k.closer.length, by omega, ?_, ?_⟩
+  · exact drop_add_of_drop (drop_add_of_drop hdrop')
+  · have := reach_dispatch (stop := stop) (child := child) htol hpk (hstop _ hkindm) hkc (by omega)
+      (dispatch_math (K := stdF keys false none true) (tk := { mathTok (st.pos + w.length) w k.opener k.display with pre := [] })
+        hkindm (hch _ harg) hopen hmath)
+    have e : shapeOf (Node.math (st.pos + w.length) (st.pos + w.length + k.opener.length + n + w'.length + k.closer.length)
+        (psInfo (stdF keys false none true)) k.display k.opener k.closer (some ns))
+        = .math k.display k.opener k.closer (some (normList trb)) := by
+      simp only [shapeOf, shapeOfBody]
+      rw [normList_congr (hsh.trans hm)]
+      rfl
+    rw [e] at this
+    exact this
+
+/-- a comment followed by something that is not whitespace, the rest being handled by `hrec` -/
+theorem comment_then (ctx : Ctx) (htol : env.tol = false) {m : Bool} {md : Option Str} (hn : NormOk m md) {br : Bool}
+    {stop : StopTok} {child : ChildPS} {X : List Item} {text ind after w : Str} {st : LoopSt}
+    (hprev : treeRaw ctx (some ('\n' :: ind)) X = treeRaw ctx none X)
+    (hd : env.s.drop st.pos = w ++ (unparseItems (.C text ('\n' :: ind) :: X) ++ after)) (hw : isWs w = true)
+    (hnl : countNl w < 2) (htext : text.contains '\n' = false) (hws : isWs ('\n' :: ind) = true)
+    (hnl2 : countNl ('\n' :: ind) < 2) (hhead2 : headIs isPySpace (unparseItems X ++ after) = false)
+    (hrec : ∀ (st : LoopSt) (w : Str), isWs w = true → countNl w < 2 →
+      (w = [] ∨ headIs isPySpace (unparseItems X ++ after) = false) →
+      env.s.drop st.pos = w ++ (unparseItems X ++ after) →
+      ReachesW env (stdF keys m md true br) stop child st w (treeRaw ctx none X) after) :
+    ReachesW env (stdF keys m md true br) stop child st w (treeRaw ctx none (.C text ('\n' :: ind) :: X)) after := by
+  have hd' : env.s.drop st.pos = w ++ ('%' :: (text ++ '\n' :: (ind ++ (unparseItems X ++ after)))) := by
+    rw [hd]; simp only [unparseItems, List.cons_append, List.append_assoc]
+  obtain ⟨p, hp, hdp, hr⟩ := step_comment (br := br) (stop := stop) (child := child) htol hn hd' hw hnl htext hws hnl2 hhead2
+  have := ReachesW.step hr rfl (fun st1 hp1 => hrec st1 [] rfl (by decide) (Or.inl rfl) (by
+    have e : st.pos + (p - st.pos) = p := by omega
+    rw [hp1, e]; exact hdp))
+  simpa only [treeRaw, hprev, List.singleton_append] using this
+
+theorem argKind_s_of_beq (k : ArgKind) (h : (k == ArgKind.s) = true) : k = .s := by
+  cases k <;> first | rfl | cases h
+
+theorem argKind_m_of_beq (k : ArgKind) (h : (k == ArgKind.m) = true) : k = .m := by
+  cases k <;> first | rfl | cases h
+
+theorem pendSh_ne {w : Str} (h : w.isEmpty = false) : pendSh w = [.chars w] := by
+  unfold pendSh; rw [h]; rfl
+
 /-! ### the prefix lemma, by recursion on the derivation -/
 
-/-- **prefix lemma.**  With the collector at the start of `unparse a ++ rest` (any pending characters, any
-    accumulated nodes, any stop condition), it produces the structure of `a` and stands in front of `rest`. -/
-theorem items_reach (ctx : Ctx) (htol : env.tol = false) (hk : keysCore keys = true) :
-    ∀ (a : List Item), coreItems a = true → ∀ (m : Bool) (md : Option Str), NormOk m md →
-      ∀ (stop : StopTok) (child : ChildPS), (∀ t, child.get (stdF keys m md true) t = stdF keys m md true) →
-      ∀ (st : LoopSt) (rest : Str), headIs isPySpace rest = false → env.s.drop st.pos = unparseItems a ++ rest →
-      Reaches env (stdF keys m md true) stop child st (treeRaw ctx none a) (unparseItems a).length
-  | [], _, m, md, _, stop, child, _, st, _, _, _ => by
-    simpa only [treeRaw, unparseItems, List.length_nil] using Reaches.refl env (stdF keys m md true) stop child st
-  | .T t :: tl, hc, m, md, hn, stop, child, hch, st, rest, hrs, hd => by
+mutual
+/-- **prefix lemma.**  With the collector in front of `w ++ unparse a ++ after` (`w` whitespace not yet read; any
+    pending characters, any accumulated nodes, any stop condition), it produces the structure of `a` and stands in
+    front of (whitespace and) `after`. -/
+theorem items_reach (ctx : Ctx) (htol : env.tol = false) (hk : keysCore keys = true) (hctx : env.ctx = ctx)
+    (hkeys : ctxKeys ctx = keys) :
+    ∀ (a : List Item) (m : Bool) (after : Str), coreItems ctx m after a = true → ∀ (md : Option Str), NormOk m md →
+      ∀ (br : Bool) (stop : StopTok) (child : ChildPS),
+      (∀ t : Token, t.arg ≠ ['['] → child.get (stdF keys m md true br) t = stdF keys m md true) →
+      (m = false → ∀ t : Token, t.kind = .mathInline ∨ t.kind = .mathDisplay → stop.test t = false) →
+      ∀ (st : LoopSt) (w : Str), isWs w = true → countNl w < 2 →
+        (w = [] ∨ headIs isPySpace (unparseItems a ++ after) = false) →
+        env.s.drop st.pos = w ++ (unparseItems a ++ after) →
+        ReachesW env (stdF keys m md true br) stop child st w (treeRaw ctx none a) after
+  | [], m, after, _, md, _, br, stop, child, _, _, st, w, hw, hnl, _, hd => by
+    simp only [unparseItems, List.nil_append] at hd
+    simpa only [treeRaw] using ReachesW.nil hd hw hnl
+  | .T t :: tl, m, after, hc, md, hn, br, stop, child, hch, hsm, st, w, hw, hnl, _, hd => by
     simp only [coreItems, Bool.and_eq_true, Bool.not_eq_eq_eq_not, Bool.not_true] at hc
     obtain ⟨⟨hne, hall⟩, htl⟩ := hc
     simp only [unparseItems, List.append_assoc] at hd
-    have h1 := reach_letters (stop := stop) (child := child) htol hn hk t st _ hall hd
-    have h2 := Reaches.trans h1 (fun st1 hp =>
-      items_reach ctx htol hk tl htl m md hn stop child hch st1 rest hrs (by rw [hp]; exact drop_add_of_drop hd))
-    have e1 : pendSh t = [.chars t] := by unfold pendSh; rw [hne]; rfl
-    rw [e1] at h2
-    simpa only [treeRaw, unparseItems, List.length_append, List.singleton_append] using h2
-  | .G b :: tl, hc, m, md, hn, stop, child, hch, st, rest, hrs, hd => by
+    have h1 := reach_text (br := br) (stop := stop) (child := child) htol hn hk hd hw hnl
+      (by intro e; rw [e] at hne; simp at hne) hall
+    have := ReachesW.step h1 rfl (fun st1 hp => items_reach ctx htol hk hctx hkeys tl m after htl md hn br stop child hch hsm
+      st1 [] rfl (by decide) (Or.inl rfl) (by
+        rw [hp, ← Nat.add_assoc]; exact drop_add_of_drop (drop_add_of_drop hd)))
+    simpa only [treeRaw, List.singleton_append] using this
+  | .W w2 :: tl, m, after, hc, md, hn, br, stop, child, hch, hsm, st, w, hw, hnl, hpre, hd => by
+    simp only [coreItems, Bool.and_eq_true, Bool.not_eq_eq_eq_not, Bool.not_true, decide_eq_true_eq] at hc
+    obtain ⟨⟨⟨⟨hne, hws⟩, hnl2⟩, hhead⟩, htl⟩ := hc
+    have hw0 : w = [] := by
+      rcases hpre with h | h
+      · exact h
+      · exfalso
+        cases w2 with
+        | nil => simp at hne
+        | cons c w2 =>
+          simp only [isWs, List.all_cons, Bool.and_eq_true] at hws
+          simp [unparseItems, headIs, hws.1] at h
+    subst hw0
+    simp only [unparseItems, List.append_assoc, List.nil_append] at hd
+    obtain ⟨tr, n, w', h1, h2, h3, h4, h5⟩ := items_reach ctx htol hk hctx hkeys tl m after htl md hn br stop child hch hsm
+      st w2 hws hnl2 (Or.inr hhead) hd
+    refine ⟨tr, n, w', h1, h2, h3, h4, ?_⟩
+    rw [h5, pendSh_ne hne]
+    simp only [treeRaw, pendSh, List.isEmpty_nil, if_true, List.nil_append, List.singleton_append]
+  | .G b :: tl, m, after, hc, md, hn, br, stop, child, hch, hsm, st, w, hw, hnl, _, hd => by
     simp only [coreItems, Bool.and_eq_true] at hc
     obtain ⟨hb, htl⟩ := hc
     simp only [unparseItems, List.cons_append, List.append_assoc] at hd
-    have hd1 : env.s.drop (st.pos + 1) = unparseItems b ++ '}' :: (unparseItems tl ++ rest) := drop_succ_of_drop hd
-    have hbody := items_reach ctx htol hk b hb m md hn (.braceClose ['}'])
-      (.group ['{'] (stdF keys m md true) (stdF keys m md true)) (child_group _ _) { pos := st.pos + 1 } _ (by show isPySpace '}' = false; decide) hd1
-    obtain ⟨a', b', ns, hgen, hsh⟩ := body_runs htol hn hbody (drop_add_of_drop hd1)
-    have hgrp := group_runs htol hn hd hgen
-    have h1 := reach_group (stop := stop) htol hn hch hd hgrp (by omega)
-    have h2 := Reaches.trans h1 (fun st1 hp =>
-      items_reach ctx htol hk tl htl m md hn stop child hch st1 rest hrs (by
-        rw [hp]
-        have : st.pos + (st.pos + 1 + (unparseItems b).length + 1 - st.pos) = st.pos + 1 + (unparseItems b).length + 1 := by omega
-        rw [this]
-        exact drop_succ_of_drop (drop_add_of_drop hd1)))
-    have e1 : shapeOf (Node.group st.pos (st.pos + 1 + (unparseItems b).length + 1) (psInfo (stdF keys m md true)) ['{'] ['}'] (some ns))
-        = .group ['{'] ['}'] (some (normList (treeRaw ctx none b))) := by
-      simp only [shapeOf, shapeOfBody]
-      rw [normList_congr hsh]
-    rw [e1] at h2
-    have e2 : st.pos + 1 + (unparseItems b).length + 1 - st.pos + (unparseItems tl).length
-        = (unparseItems (.G b :: tl)).length := by
-      simp only [unparseItems, List.length_cons, List.length_append]; omega
-    rw [e2] at h2
-    simpa only [treeRaw, List.singleton_append] using h2
-  | .C text tail :: tl, hc, m, md, hn, stop, child, hch, st, rest, hrs, hd => by
-    simp only [coreItems, Bool.and_eq_true, Bool.not_eq_eq_eq_not, Bool.not_true, decide_eq_true_eq, beq_iff_eq] at hc
-    obtain ⟨⟨⟨⟨htext, hhead⟩, hws⟩, hnl⟩, htl⟩ := hc
-    cases tail with
-    | nil => simp at hhead
-    | cons c0 ind =>
-      have hc0 : c0 = '\n' := by simpa using hhead
-      subst hc0
-      simp only [unparseItems, List.cons_append, List.append_assoc] at hd
-      have hr := core_head tl rest htl hrs
-      have h1 := reach_comment (keys := keys) (stop := stop) (child := child) htol hn hd htext hws hnl hr
-      have h2 := Reaches.trans h1 (fun st1 hp =>
-        items_reach ctx htol hk tl htl m md hn stop child hch st1 rest hrs (by
-          rw [hp]
-          have e : st.pos + (1 + text.length + (1 + ind.length)) = st.pos + 1 + text.length + 1 + ind.length := by omega
-          rw [e]
-          have d1 := drop_succ_of_drop hd
-          have d2 := drop_add_of_drop d1
-          have d3 := drop_succ_of_drop d2
-          exact drop_add_of_drop d3))
-      have e2 : 1 + text.length + (1 + ind.length) + (unparseItems tl).length
-          = (unparseItems (.C text ('\n' :: ind) :: tl)).length := by
-        simp only [unparseItems, List.length_cons, List.length_append]; omega
-      rw [e2] at h2
-      simpa only [treeRaw, treeRaw_prev ctx _ tl htl, List.singleton_append] using h2
-  | .W _ :: _, hc, _, _, _, _, _, _, _, _, _, _ => by simp [coreItems] at hc
-  | .P _ :: _, hc, _, _, _, _, _, _, _, _, _, _ => by simp [coreItems] at hc
-  | .M _ _ _ :: _, hc, _, _, _, _, _, _, _, _, _, _ => by simp [coreItems] at hc
-  | .E _ _ _ :: _, hc, _, _, _, _, _, _, _, _, _, _ => by simp [coreItems] at hc
-  | .F _ _ :: _, hc, _, _, _, _, _, _, _, _, _, _ => by simp [coreItems] at hc
-  | .S _ _ :: _, hc, _, _, _, _, _, _, _, _, _, _ => by simp [coreItems] at hc
-  | .V _ _ :: _, hc, _, _, _, _, _, _, _, _, _, _ => by simp [coreItems] at hc
-  | .VE _ _ _ _ :: _, hc, _, _, _, _, _, _, _, _, _, _ => by simp [coreItems] at hc
+    have hd1 : env.s.drop (st.pos + w.length + 1) = [] ++ (unparseItems b ++ '}' :: (unparseItems tl ++ after)) :=
+      drop_succ_of_drop (drop_add_of_drop hd)
+    have hbody := items_reach ctx htol hk hctx hkeys b m ('}' :: (unparseItems tl ++ after)) hb md hn false (.braceClose ['}'])
+      (.group ['{'] (stdF keys m md true) (stdF keys m md true)) (fun t _ => child_group _ _ t)
+      (fun _ t ht => stop_brace_math _ t ht) { pos := st.pos + w.length + 1 } [] rfl (by decide) (Or.inl rfl) hd1
+    obtain ⟨p, hp, hdp, hr⟩ := step_group (br := br) (stop := stop) (child := child) htol hn hch hd hw hnl hbody
+    have := ReachesW.step hr rfl (fun st1 hp1 => items_reach ctx htol hk hctx hkeys tl m after htl md hn br stop child hch hsm
+      st1 [] rfl (by decide) (Or.inl rfl) (by
+        have e : st.pos + (p - st.pos) = p := by omega
+        rw [hp1, e]; exact hdp))
+    simpa only [treeRaw, List.singleton_append] using this
+  | .C text tail :: tl, m, after, hc, md, hn, br, stop, child, hch, hsm, st, w, hw, hnl, _, hd => by
+    cases htlq : tl with
+    | nil =>
+      rw [htlq] at hc hd
+      rw [coreItems] at hc
+      rotate_left
+      · intro _ _ h; cases h
+      simp only [Bool.and_eq_true, Bool.not_eq_eq_eq_not, Bool.not_true, decide_eq_true_eq, beq_iff_eq] at hc
+      obtain ⟨⟨⟨⟨⟨htext, hhead⟩, hws⟩, hnl2⟩, hhead2⟩, htl⟩ := hc
+      cases tail with
+      | nil => simp at hhead
+      | cons c0 ind =>
+        have hc0 : c0 = '\n' := by simpa using hhead
+        subst hc0
+        exact comment_then ctx htol hn (by simp only [treeRaw]) hd hw hnl htext hws hnl2 hhead2
+          (fun st1 w1 hw1 hnl1 _ hd1 => by
+            simp only [unparseItems, List.nil_append] at hd1
+            simpa only [treeRaw] using ReachesW.nil hd1 hw1 hnl1)
+    | cons it tl' =>
+      rw [htlq] at hc hd
+      have hrecA := fun htl => items_reach ctx htol hk hctx hkeys (it :: tl') m after htl md hn br stop child hch hsm
+      cases it with
+      | W w2 =>
+        simp only [coreItems, Bool.and_eq_true, Bool.not_eq_eq_eq_not, Bool.not_true, decide_eq_true_eq, beq_iff_eq] at hc
+        obtain ⟨⟨⟨⟨⟨htext, hhead⟩, hws⟩, hnl2⟩, hw20⟩, ⟨⟨⟨_, hws2⟩, _⟩, hhead2⟩, htl⟩ := hc
+        cases tail with
+        | nil => simp at hhead
+        | cons c0 ind =>
+          have hc0 : c0 = '\n' := by simpa using hhead
+          subst hc0
+          simp only [unparseItems, List.cons_append, List.append_assoc] at hd
+          have hd' : env.s.drop st.pos = w ++ ('%' :: (text ++ '\n' :: ((ind ++ w2) ++ (unparseItems tl' ++ after)))) := by
+            rw [hd]; simp only [List.append_assoc]
+          have hwsp : isWs ('\n' :: (ind ++ w2)) = true := by
+            simp only [isWs, List.all_cons, List.all_append, Bool.and_eq_true] at hws hws2 ⊢
+            exact ⟨hws.1, hws.2, hws2⟩
+          have hnlp : countNl ('\n' :: (ind ++ w2)) < 2 := by
+            have : countNl ('\n' :: (ind ++ w2)) = countNl ('\n' :: ind) + countNl w2 := by
+              simp only [countNl, List.count_cons, List.count_append]; omega
+            omega
+          obtain ⟨p, hp, hdp, hr⟩ := step_comment (br := br) (stop := stop) (child := child) htol hn hd' hw hnl htext hwsp hnlp hhead2
+          have := ReachesW.step hr rfl (fun st1 hp1 => items_reach ctx htol hk hctx hkeys tl' m after htl md hn br stop child hch hsm
+            st1 [] rfl (by decide) (Or.inl rfl) (by
+              have e : st.pos + (p - st.pos) = p := by omega
+              rw [hp1, e]; exact hdp))
+          simpa only [treeRaw, List.singleton_append] using this
+      | _ =>
+        first
+        | (simp [coreItems] at hc; done)
+        | (rw [coreItems] at hc
+           rotate_left
+           · intro _ _ h; cases h
+           simp only [Bool.and_eq_true, Bool.not_eq_eq_eq_not, Bool.not_true, decide_eq_true_eq, beq_iff_eq] at hc
+           obtain ⟨⟨⟨⟨⟨htext, hhead⟩, hws⟩, hnl2⟩, hhead2⟩, htl⟩ := hc
+           cases tail with
+           | nil => simp at hhead
+           | cons c0 ind =>
+             have hc0 : c0 = '\n' := by simpa using hhead
+             subst hc0
+             exact comment_then ctx htol hn (by simp only [treeRaw]) hd hw hnl htext hws hnl2 hhead2 (hrecA htl))
+  | .M name post args :: tl, m, after, hc, md, hn, br, stop, child, hch, hsm, st, w, hw, hnl, _, hd => by
+    simp only [coreItems, isControlWord, Bool.and_eq_true, Bool.not_eq_eq_eq_not, Bool.not_true, decide_eq_true_eq,
+      bne_iff_ne, ne_eq] at hc
+    obtain ⟨⟨⟨⟨⟨⟨⟨⟨⟨hne, hall⟩, hnb⟩, hnend⟩, hwsp⟩, hnlp⟩, hnext⟩, hhead⟩, hargs⟩, htl⟩ := hc
+    cases hms : ctx.macroSpec name with
+    | none => rw [hms] at hargs; cases hargs
+    | some a =>
+      cases a with
+      | std sig =>
+        rw [hms] at hargs
+        simp only at hargs
+        cases name with
+        | nil => simp at hne
+        | cons c0 name' =>
+          simp only [unparseItems, List.cons_append, List.append_assoc] at hd
+          have hd' : env.s.drop st.pos = w ++ ('\\' :: ((c0 :: name') ++ (post ++ (unparseArgs args ++ (unparseItems tl ++ after))))) := by
+            rw [hd]; rfl
+          have hdA : env.s.drop (st.pos + w.length + 1 + (c0 :: name').length + post.length) = unparseArgs args ++ (unparseItems tl ++ after) :=
+            drop_add_of_drop (drop_add_of_drop (drop_succ_of_drop (drop_add_of_drop hd')))
+          obtain ⟨al, pA, hAE, hpA, hdpA, hshape⟩ := args_reach ctx htol hk hctx hkeys sig args m (unparseItems tl ++ after) hargs md hn []
+            (st.pos + w.length + 1 + (c0 :: name').length + post.length) hdA
+          rw [List.nil_append] at hAE
+          have hr := step_macro (br := br) (stop := stop) (child := child) htol hn hch hd' hw hnl hall hnext hwsp hnlp hhead hnb hnend
+            (by rw [hctx]; exact hms) hAE (by omega)
+          rw [hshape] at hr
+          have := ReachesW.step hr rfl (fun st1 hp1 => items_reach ctx htol hk hctx hkeys tl m after htl md hn br stop child hch hsm
+            st1 [] rfl (by decide) (Or.inl rfl) (by
+              have e : st.pos + (pA - st.pos) = pA := by omega
+              rw [hp1, e]; exact hdpA))
+          simpa only [treeRaw, List.singleton_append] using this
+      | legacyVerb => rw [hms] at hargs; cases hargs
+      | legacyVerbEnv _ _ => rw [hms] at hargs; cases hargs
+      | unknown => rw [hms] at hargs; cases hargs
+  | .F k b :: tl, m, after, hc, md, hn, br, stop, child, hch, hsm, st, w, hw, hnl, _, hd => by
+    simp only [coreItems, Bool.and_eq_true, Bool.not_eq_eq_eq_not, Bool.not_true, Bool.or_eq_true, bne_iff_ne, ne_eq] at hc
+    obtain ⟨⟨⟨hm, hb⟩, hdol⟩, htl⟩ := hc
+    subst hm
+    have hmd : md = none := hn rfl
+    subst hmd
+    simp only [unparseItems, List.append_assoc] at hd
+    have hd1 : env.s.drop (st.pos + w.length + k.opener.length) = [] ++ (unparseItems b ++ (k.closer ++ (unparseItems tl ++ after))) :=
+      drop_add_of_drop (drop_add_of_drop hd)
+    have hbody := items_reach ctx htol hk hctx hkeys b true (k.closer ++ (unparseItems tl ++ after)) hb (some k.opener) (normOk_true _)
+      false (.mathClose k.display k.closer) .same (fun t _ => rfl) (fun h => by cases h)
+      { pos := st.pos + w.length + k.opener.length } [] rfl (by decide) (Or.inl rfl) hd1
+    have hdollar : k = .dollar → headIs (· == '$') (unparseItems b ++ (k.closer ++ (unparseItems tl ++ after))) = false := by
+      intro hk2
+      rcases hdol with h | h
+      · subst hk2; cases h
+      · exact core_head_not_dollar ctx _ b hb _ h
+    obtain ⟨p, hp, hdp, hr⟩ := step_math (br := br) (stop := stop) (child := child) htol k hch (hsm rfl) hd hw hnl hdollar hbody
+    have := ReachesW.step hr rfl (fun st1 hp1 => items_reach ctx htol hk hctx hkeys tl false after htl none hn br stop child hch hsm
+      st1 [] rfl (by decide) (Or.inl rfl) (by
+        have e : st.pos + (p - st.pos) = p := by omega
+        rw [hp1, e]; exact hdp))
+    simpa only [treeRaw, List.singleton_append] using this
+  | .P _ :: _, _, _, hc, _, _, _, _, _, _, _, _, _, _, _, _, _ => by simp [coreItems] at hc
+  | .E _ _ _ :: _, _, _, hc, _, _, _, _, _, _, _, _, _, _, _, _, _ => by simp [coreItems] at hc
+  | .S name args :: tl, m, after, hc, md, hn, br, stop, child, hch, hsm, st, w, hw, hnl, _, hd => by
+    simp only [coreItems, Bool.and_eq_true, beq_iff_eq] at hc
+    obtain ⟨⟨⟨⟨hargs, hhead⟩, hts⟩, hspec⟩, htl⟩ := hc
+    have hargs' : args = [] := List.isEmpty_iff.mp hargs
+    subst hargs'
+    cases name with
+    | nil => simp [headIs] at hhead
+    | cons c name' =>
+      have hc : specialsHeadOk c = true := by simpa [headIs] using hhead
+      have hspec' : lookupFirst (c :: name') env.ctx.specials = some (.std []) := by
+        rw [hctx]
+        cases hl : lookupFirst (c :: name') ctx.specials with
+        | none => rw [hl] at hspec; cases hspec
+        | some a =>
+          rw [hl] at hspec
+          cases a with
+          | std sig =>
+            simp only at hspec
+            rw [List.isEmpty_iff.mp hspec]
+          | legacyVerb => cases hspec
+          | legacyVerbEnv _ _ => cases hspec
+          | unknown => cases hspec
+      have hd' : env.s.drop st.pos = w ++ ((c :: name') ++ (unparseItems tl ++ after)) := by
+        rw [hd]; simp only [unparseItems, unparseArgs, List.nil_append, List.append_assoc]
+      rw [hkeys] at hts
+      have hr := step_specials (br := br) (stop := stop) (child := child) htol hn hch hd' hw hnl hc hts hspec'
+      have := ReachesW.step hr rfl (fun st1 hp => items_reach ctx htol hk hctx hkeys tl m after htl md hn br stop child hch hsm
+        st1 [] rfl (by decide) (Or.inl rfl) (by
+          rw [hp, ← Nat.add_assoc]; exact drop_add_of_drop (drop_add_of_drop hd')))
+      simpa only [treeRaw, treeArgs, List.singleton_append] using this
+  | .V _ _ :: _, _, _, hc, _, _, _, _, _, _, _, _, _, _, _, _, _ => by simp [coreItems] at hc
+  | .VE _ _ _ _ :: _, _, _, hc, _, _, _, _, _, _, _, _, _, _, _, _, _ => by simp [coreItems] at hc
+termination_by a => sizeOf a
+decreasing_by
+  all_goals first
+    | decreasing_tactic
+    | (subst_vars; decreasing_tactic)
+/-- the arguments of a call, slot by slot -/
+theorem args_reach (ctx : Ctx) (htol : env.tol = false) (hk : keysCore keys = true) (hctx : env.ctx = ctx)
+    (hkeys : ctxKeys ctx = keys) :
+    ∀ (sig : List ArgSpec) (args : List ArgVal) (m : Bool) (rest : Str), coreArgs ctx m rest sig args = true →
+      ∀ (md : Option Str), NormOk m md → ∀ (acc : List Arg) (pos : Nat), env.s.drop pos = unparseArgs args ++ rest →
+      ∃ al pA, ArgsEv env (stdF keys m md true) sig acc pos (.ok (.args none none (acc ++ al)) pA) ∧ pos ≤ pA ∧
+        env.s.drop pA = rest ∧ shapeOfArgList al = treeArgs ctx args
+  | [], [], m, rest, _, md, _, acc, pos, hd => by
+    refine ⟨[], pos, ?_, Nat.le_refl _, by simpa [unparseArgs] using hd, by simp only [shapeOfArgList, treeArgs]⟩
+    rw [List.append_nil]
+    exact argsEv_nil _ _ _
+  | sp :: sig, .absent :: tl, m, rest, hc, md, hn, acc, pos, hd => by
+    simp only [coreArgs, Bool.and_eq_true] at hc
+    obtain ⟨⟨⟨hkind, habs⟩, hfol⟩, hrest⟩ := hc
+    simp only [unparseArgs] at hd
+    obtain ⟨md', hK', hn'⟩ := applyDelta_std (keys := keys) m md sp.delta
+    have hpk := peek_follow_noerr (psStd_std keys m md true false hn) hd hfol
+    obtain ⟨al, pA, hAE, hpA, hdpA, hshape⟩ := args_reach ctx htol hk hctx hkeys sig tl m rest hrest md hn (acc ++ [Arg.absent]) pos hd
+    refine ⟨.absent :: al, pA, ?_, hpA, hdpA, by simp only [shapeOfArgList, shapeOfArg, treeArgs, hshape]⟩
+    have e : acc ++ Arg.absent :: al = acc ++ [Arg.absent] ++ al := by simp
+    rw [e]
+    cases hkk : sp.kind with
+    | o ap =>
+      rw [hkk] at habs
+      refine argsEv_cons (res := .none) htol hpk ?_ hAE
+      rw [hkk, hK']
+      exact group_absent_runs htol (hn' hn) ap hd hfol habs
+    | s =>
+      rw [hkk] at habs
+      refine argsEv_cons (res := .none) htol hpk ?_ hAE
+      rw [hkk, hK']
+      exact marker_absent_runs htol (hn' hn) hd hfol habs
+    | m => rw [hkk] at hkind; cases hkind
+    | t _ => rw [hkk] at hkind; cases hkind
+    | r _ _ => rw [hkk] at hkind; cases hkind
+    | d _ _ => rw [hkk] at hkind; cases hkind
+    | v => rw [hkk] at hkind; cases hkind
+    | vd _ _ => rw [hkk] at hkind; cases hkind
+  | sp :: sig, .star :: tl, m, rest, hc, md, hn, acc, pos, hd => by
+    simp only [coreArgs, Bool.and_eq_true] at hc
+    obtain ⟨hkind, hrest⟩ := hc
+    have hkk := argKind_s_of_beq _ hkind
+    simp only [unparseArgs, List.cons_append] at hd
+    obtain ⟨md', hK', hn'⟩ := applyDelta_std (keys := keys) m md sp.delta
+    have hpk := peek_follow_noerr (psStd_std keys m md true false hn) hd (followOk_of_head (by decide) (by decide))
+    obtain ⟨al, pA, hAE, hpA, hdpA, hshape⟩ := args_reach ctx htol hk hctx hkeys sig tl m rest hrest md hn
+      (acc ++ [Arg.node (Node.chars pos (pos + 1) (psInfo (stdF keys (deltaMath m sp.delta) md' true)) ['*'])]) (pos + 1)
+      (drop_succ_of_drop hd)
+    refine ⟨Arg.node (Node.chars pos (pos + 1) (psInfo (stdF keys (deltaMath m sp.delta) md' true)) ['*']) :: al, pA, ?_, by omega, hdpA,
+      by simp only [shapeOfArgList, shapeOfArg, shapeOf, treeArgs, hshape]⟩
+    have e : ∀ x : Arg, acc ++ x :: al = acc ++ [x] ++ al := by intro x; simp
+    rw [e]
+    refine argsEv_cons (res := .node _) htol hpk ?_ hAE
+    rw [hkk, hK']
+    exact marker_star_runs htol (hn' hn) hk hd
+  | sp :: sig, .br b :: tl, m, rest, hc, md, hn, acc, pos, hd => by
+    simp only [coreArgs, Bool.and_eq_true] at hc
+    obtain ⟨⟨hkind, hb⟩, hrest⟩ := hc
+    simp only [unparseArgs, List.cons_append, List.append_assoc] at hd
+    obtain ⟨md', hK', hn'⟩ := applyDelta_std (keys := keys) m md sp.delta
+    have hpk := peek_follow_noerr (psStd_std keys m md true false hn) hd (followOk_of_head (by decide) (by decide))
+    cases hkk : sp.kind with
+    | o ap =>
+      have hd1 : env.s.drop (pos + 1) = [] ++ (unparseItems b ++ ']' :: (unparseArgs tl ++ rest)) := drop_succ_of_drop hd
+      have hbody := items_reach ctx htol hk hctx hkeys b (deltaMath m sp.delta) (']' :: (unparseArgs tl ++ rest)) hb md' (hn' hn) true
+        (.braceClose [']']) (.group ['['] (stdF keys (deltaMath m sp.delta) md' true true) (stdF keys (deltaMath m sp.delta) md' true))
+        (fun t ht => child_br _ _ t ht) (fun _ t ht => stop_brace_math _ t ht) { pos := pos + 1 } [] rfl (by decide) (Or.inl rfl) hd1
+      obtain ⟨p, nd, hqp, hdp, hgrp, hsh⟩ := brgroup_node htol (hn' hn) ap hd hbody
+      obtain ⟨al, pA, hAE, hpA, hdpA, hshape⟩ := args_reach ctx htol hk hctx hkeys sig tl m rest hrest md hn (acc ++ [Arg.node nd]) p hdp
+      refine ⟨Arg.node nd :: al, pA, ?_, by omega, hdpA, by simp only [shapeOfArgList, shapeOfArg, treeArgs, hshape, hsh]⟩
+      have e : acc ++ Arg.node nd :: al = acc ++ [Arg.node nd] ++ al := by simp
+      rw [e]
+      refine argsEv_cons (res := .node nd) htol hpk ?_ hAE
+      rw [hkk, hK']
+      exact hgrp
+    | s => rw [hkk] at hkind; cases hkind
+    | m => rw [hkk] at hkind; cases hkind
+    | t _ => rw [hkk] at hkind; cases hkind
+    | r _ _ => rw [hkk] at hkind; cases hkind
+    | d _ _ => rw [hkk] at hkind; cases hkind
+    | v => rw [hkk] at hkind; cases hkind
+    | vd _ _ => rw [hkk] at hkind; cases hkind
+  | sp :: sig, .grp b :: tl, m, rest, hc, md, hn, acc, pos, hd => by
+    simp only [coreArgs, Bool.and_eq_true] at hc
+    obtain ⟨⟨hkind, hb⟩, hrest⟩ := hc
+    have hkk := argKind_m_of_beq _ hkind
+    simp only [unparseArgs, List.cons_append, List.append_assoc] at hd
+    obtain ⟨md', hK', hn'⟩ := applyDelta_std (keys := keys) m md sp.delta
+    have hpk := peek_follow_noerr (psStd_std keys m md true false hn) hd (followOk_of_head (by decide) (by decide))
+    have hd1 : env.s.drop (pos + 1) = [] ++ (unparseItems b ++ '}' :: (unparseArgs tl ++ rest)) := drop_succ_of_drop hd
+    have hbody := items_reach ctx htol hk hctx hkeys b (deltaMath m sp.delta) ('}' :: (unparseArgs tl ++ rest)) hb md' (hn' hn) false
+      (.braceClose ['}']) (.group ['{'] (stdF keys (deltaMath m sp.delta) md' true) (stdF keys (deltaMath m sp.delta) md' true))
+      (fun t _ => child_group _ _ t) (fun _ t ht => stop_brace_math _ t ht) { pos := pos + 1 } [] rfl (by decide) (Or.inl rfl) hd1
+    obtain ⟨p, nd, hqp, hdp, hgrp, hsh⟩ := group_node htol (hn' hn) hd hbody
+    obtain ⟨al, pA, hAE, hpA, hdpA, hshape⟩ := args_reach ctx htol hk hctx hkeys sig tl m rest hrest md hn (acc ++ [Arg.node nd]) p hdp
+    refine ⟨Arg.node nd :: al, pA, ?_, by omega, hdpA, by simp only [shapeOfArgList, shapeOfArg, treeArgs, hshape, hsh]⟩
+    have e : acc ++ Arg.node nd :: al = acc ++ [Arg.node nd] ++ al := by simp
+    rw [e]
+    refine argsEv_cons (res := .node nd) htol hpk ?_ hAE
+    rw [hkk, hK']
+    exact expr_runs htol (hn' hn) hd hgrp
+  | [], _ :: _, _, _, hc, _, _, _, _, _ => by simp [coreArgs] at hc
+  | _ :: _, [], _, _, hc, _, _, _, _, _ => by simp [coreArgs] at hc
+  | _ :: _, .marker _ :: _, _, _, hc, _, _, _, _, _ => by simp [coreArgs] at hc
+  | _ :: _, .tok _ :: _, _, _, hc, _, _, _, _, _ => by simp [coreArgs] at hc
+  | _ :: _, .del _ _ _ :: _, _, _, hc, _, _, _, _, _ => by simp [coreArgs] at hc
+  | _ :: _, .verb _ _ _ :: _, _, _, hc, _, _, _, _, _ => by simp [coreArgs] at hc
+termination_by _ args => sizeOf args
+end
 
 end constructs
 
@@ -356,7 +754,30 @@ end constructs
 def C02_full : Prop :=
   ∀ (ctx : Ctx) (d : List Item), WF ctx d = true → shapeTop (parseStrict ctx (unparse d)) = some (treeOf ctx d)
 
+/-- counterexample context: one macro `\a` without arguments -/
+def cexCtx : Ctx := { macros := [(['a'], .std [])] }
+
+/-- counterexample document `\a x`, written as the macro (no post-space), a whitespace item, a text item -/
+def cexDoc : List Item := [.M ['a'] [] [], .W [' '], .T ['x']]
+
+/-- **`C02_full` is false as stated**: `Doc.WF` admits a control word without post-space followed by a whitespace item
+    (`wfItems` only asks that no letter follows when `post` is empty), but the tokenizer makes that whitespace the
+    macro's post-space, so the parse is `\a`, `x` while `treeOf` says `\a`, ` x`.  (The generator never writes such a
+    derivation: its `fixup` moves the whitespace into `post`.  `Core` excludes it: `!headIs isPySpace written`.) -/
+theorem C02_full_false : ¬ C02_full := by
+  intro h
+  have h1 := h cexCtx cexDoc (by decide +kernel)
+  have h2 : (shapeTop (parseStrict cexCtx (unparse cexDoc))).map showShapeList = some (showShapeList (treeOf cexCtx cexDoc)) := by
+    rw [h1]; rfl
+  revert h2
+  decide +kernel
+
 theorem startFields_std (ctx : Ctx) : startFields ctx = stdF (ctxKeys ctx) false none true := rfl
+
+theorem delimsOk_start (ctx : Ctx) : DelimsOk (startFields ctx) := by
+  show ∀ pr ∈ ([(['$'], ['$']), (['\\', '('], ['\\', ')'])] : Pairs) ++ [(['$', '$'], ['$', '$']), (['\\', '['], ['\\', ']'])],
+    pr.1 ≠ [] ∧ pr.2 ≠ []
+  decide
 
 /-- the top-level task on a core document, for every sufficiently large amount of fuel, ends at the end of the input
     with a node list whose structure is the one the document was written with -/
@@ -366,19 +787,26 @@ theorem core_ev (ctx : Ctx) (d : List Item) (h : Core ctx d = true) :
   unfold Core at h
   rw [Bool.and_eq_true] at h
   obtain ⟨hk, hc⟩ := h
-  have hr := items_reach (env := { tol := false, ctx := ctx, s := unparse d }) ctx rfl hk d hc false none (fun _ => rfl)
-    .none .same (child_same _) { pos := 0 } [] rfl (by simp [unparse])
-  obtain ⟨st', hp, hs, hkk⟩ := hr
-  have hp' : st'.pos = (unparseItems d).length := by rw [hp]; simp
-  obtain ⟨e, he, hsh, herr, hst, hpos⟩ := loop_eos (stop := .none) (child := .same)
-    (env := { tol := false, ctx := ctx, s := unparse d }) rfl (stdF (ctxKeys ctx) false none true) (st := st')
-    (by rw [hp']; exact List.drop_length)
+  obtain ⟨tr, n, w', ⟨st', hp, hs, hkk⟩, hdrop, hw', hn', hm⟩ :=
+    items_reach (env := { tol := false, ctx := ctx, s := unparse d }) ctx rfl hk rfl rfl d false [] hc none (fun _ => rfl)
+      false .none .same (fun t _ => rfl) (fun _ t _ => rfl) { pos := 0 } [] rfl (by decide) (Or.inl rfl)
+      (by simp [unparse])
+  have hd' : (unparse d).drop st'.pos = w' := by
+    rw [hp]; simpa using hdrop
+  obtain ⟨e, he, hsh, herr, hst, hpos⟩ := loop_eos_ws (child := .same)
+    (env := { tol := false, ctx := ctx, s := unparse d }) rfl (stdF (ctxKeys ctx) false none true) (st := st') hd' hw' hn'
   have htop := general_of_loop_top (env := { tol := false, ctx := ctx, s := unparse d }) rfl (hkk _ he) herr hst
-  rw [hpos, hp'] at htop
+  have hend : e.pos = (unparse d).length := by
+    obtain ⟨N, hN⟩ := htop
+    exact (C01_strict_of_delims ctx (unparse d) (startFields ctx) (delimsOk_start ctx) N _ _ _ _ (hN N (Nat.le_refl _))).2.1
+  rw [hend] at htop
   refine ⟨_, _, e.nodes, htop, ?_⟩
   unfold shapeOfList treeOf
   apply normList_congr
-  rw [hsh, hs, sh_init, List.nil_append]
+  rw [hsh]
+  have e1 : mergeChars (sh st') = mergeChars tr := by rw [hs]; rfl
+  rw [mergeChars_append_left e1, hm]
+  rfl
 
 /-- **C02 on the core fragment, every amount of fuel that is large enough.** -/
 theorem C02_core_run (ctx : Ctx) (d : List Item) (h : Core ctx d = true) :
@@ -389,11 +817,6 @@ theorem C02_core_run (ctx : Ctx) (d : List Item) (h : Core ctx d = true) :
   rw [hN n hn]
   show some (shapeOfList ns) = _
   rw [hsh]
-
-theorem delimsOk_start (ctx : Ctx) : DelimsOk (startFields ctx) := by
-  show ∀ pr ∈ ([(['$'], ['$']), (['\\', '('], ['\\', ')'])] : Pairs) ++ [(['$', '$'], ['$', '$']), (['\\', '['], ['\\', ']'])],
-    pr.1 ≠ [] ∧ pr.2 ≠ []
-  decide
 
 /-- **C02 on the core fragment** (`parseTop`, i.e. the fuel `fuelFor s` the model runs with): for every context in
     which no specials string starts with a text character and every document made of text (letters, digits,
@@ -433,43 +856,71 @@ def exDoc : List Item :=
 def exDoc2 : List Item :=
   [.T ['a'], .G [.C ['x', '}'] ['\n', ' ', ' '], .T ['b']], .T ['c']]
 
-theorem exDoc2_core : Core Gen.defaultCtx exDoc2 = true := by
-  have h : keysCore (ctxKeys Gen.defaultCtx) = true := by decide
-  have ha : ∀ c ∈ ['a', 'b', 'c'], isTextChar c = true := by decide
-  have hw : isWs ['\n', ' ', ' '] = true := by decide
-  have hn : countNl ['\n', ' ', ' '] < 2 := by decide
-  have hx : (['x', '}'] : Str).contains '\n' = false := by decide
-  simp [Core, h, exDoc2, coreItems, ha, hw, hn]
+/-- whitespace between and inside the other items, also behind a comment: `a {b c}` newline `%x` newline, two blanks, `d` -/
+def exDocW : List Item :=
+  [.T ['a'], .W [' '], .G [.T ['b'], .W [' '], .T ['c'], .W [' ']], .W ['\n'], .C ['x'] ['\n'], .W [' ', ' '], .T ['d']]
 
-example : shapeTop (parseStrict Gen.defaultCtx (unparse exDoc2)) = some (treeOf Gen.defaultCtx exDoc2) :=
-  C02_core _ _ exDoc2_core
+/-- macro calls: `\section*[s]{T x} \sqrt{y}\item z` — star, bracket and brace arguments, an absent optional argument
+    before a brace group, an absent trailing optional argument, a post-space -/
+def exDocM : List Item :=
+  [.M "section".toList [] [.star, .br [.T ['s']], .grp [.T ['T'], .W [' '], .T ['x']]], .W [' '],
+   .M "sqrt".toList [] [.absent, .grp [.T ['y']]],
+   .M "item".toList [' '] [.absent], .T ['z']]
 
-theorem exDoc_core : Core Gen.defaultCtx exDoc = true := by
-  have h : keysCore (ctxKeys Gen.defaultCtx) = true := by decide
-  have ha : ∀ c ∈ ['a', 'b', 'c', 'd', 'e', 'f'], isTextChar c = true := by decide
-  simp [Core, h, exDoc, coreItems, ha]
+/-- math: `$x$ \(y\) \[z\] $$w$$ $\mbox{\(a\)}$` — the four delimiter pairs, and math inside an argument that leaves math mode -/
+def exDocF : List Item :=
+  [.F .dollar [.T ['x']], .W [' '], .F .paren [.T ['y']], .W [' '], .F .brack [.T ['z']], .W [' '], .F .ddollar [.T ['w']],
+   .W [' '], .F .dollar [.M "mbox".toList [] [.grp [.F .paren [.T ['a']]]]]]
 
-/-- the source of the example -/
-example : unparse exDoc = ['a', 'b', '{', 'c', '{', '}', '{', 'd', 'e', '}', '}', 'f'] := by
-  simp [unparse, exDoc, unparseItems]
+/-- specials: `a~b --- c` and the ligature inside math and inside an argument: `$x~y$\emph{``q''}` -/
+def exDocS : List Item :=
+  [.T ['a'], .S ['~'] [], .T ['b'], .W [' '], .S ['-', '-', '-'] [], .W [' '], .T ['c'],
+   .F .dollar [.T ['x'], .S ['~'] [], .T ['y']],
+   .M "emph".toList [] [.grp [.S ['`', '`'] [], .T ['q'], .S ['\'', '\''] []]]]
 
-/-- the expected structure of the example is not trivial: chars, a group holding chars and two groups, chars -/
-example : treeOf Gen.defaultCtx exDoc =
-    [.chars ['a', 'b'],
-     .group ['{'] ['}'] (some [.chars ['c'], .group ['{'] ['}'] (some []), .group ['{'] ['}'] (some [.chars ['d', 'e']])]),
-     .chars ['f']] := by
-  have hb : ∀ c ∈ ['a', 'b', 'c', 'd', 'e', 'f'], isPySpace c = false := by decide
-  simp [treeOf, exDoc, treeRaw, normList, mergeChars, Shape.isBlank, hb]
+theorem exDoc_core : Core Gen.defaultCtx exDoc = true := by decide +kernel
+theorem exDocS_core : Core Gen.defaultCtx exDocS = true := by decide +kernel
+theorem exDoc2_core : Core Gen.defaultCtx exDoc2 = true := by decide +kernel
+theorem exDocW_core : Core Gen.defaultCtx exDocW = true := by decide +kernel
+theorem exDocM_core : Core Gen.defaultCtx exDocM = true := by decide +kernel
+theorem exDocF_core : Core Gen.defaultCtx exDocF = true := by decide +kernel
 
-/-- the default context and a nested document satisfy the hypothesis of `C02_core`, whose conclusion for them is -/
+/-- the default context and the example documents satisfy the hypothesis of `C02_core`, whose conclusion for them is -/
 example : shapeTop (parseStrict Gen.defaultCtx (unparse exDoc)) = some (treeOf Gen.defaultCtx exDoc) :=
   C02_core _ _ exDoc_core
+example : shapeTop (parseStrict Gen.defaultCtx (unparse exDoc2)) = some (treeOf Gen.defaultCtx exDoc2) :=
+  C02_core _ _ exDoc2_core
+example : shapeTop (parseStrict Gen.defaultCtx (unparse exDocW)) = some (treeOf Gen.defaultCtx exDocW) :=
+  C02_core _ _ exDocW_core
+example : shapeTop (parseStrict Gen.defaultCtx (unparse exDocM)) = some (treeOf Gen.defaultCtx exDocM) :=
+  C02_core _ _ exDocM_core
+example : shapeTop (parseStrict Gen.defaultCtx (unparse exDocF)) = some (treeOf Gen.defaultCtx exDocF) :=
+  C02_core _ _ exDocF_core
+example : shapeTop (parseStrict Gen.defaultCtx (unparse exDocS)) = some (treeOf Gen.defaultCtx exDocS) :=
+  C02_core _ _ exDocS_core
+example : unparse exDocS = "a~b --- c$x~y$\\emph{``q''}".toList := by decide +kernel
+
+/-- the source of the first example -/
+example : unparse exDoc = ['a', 'b', '{', 'c', '{', '}', '{', 'd', 'e', '}', '}', 'f'] := by decide +kernel
+
+/-- the expected structures are not trivial (canonical text of `treeOf`) -/
+example : showShapeList (treeOf Gen.defaultCtx exDoc) =
+    "(c \"ab\") (g \"{\" \"}\" [(c \"c\") (g \"{\" \"}\" []) (g \"{\" \"}\" [(c \"de\")])]) (c \"f\")" := by decide +kernel
+
+example : unparse exDocM = "\\section*[s]{T x} \\sqrt{y}\\item z".toList := by decide +kernel
+
+example : showShapeList (treeOf Gen.defaultCtx exDocM) =
+    "(m \"section\" <(c \"*\") (g \"[\" \"]\" [(c \"s\")]) (g \"{\" \"}\" [(c \"T%20;x\")])>) (m \"sqrt\" <- (g \"{\" \"}\" [(c \"y\")])>) (m \"item\" <->) (c \"z\")" := by
+  decide +kernel
+
+example : showShapeList (treeOf Gen.defaultCtx exDocF) =
+    "(f I \"$\" \"$\" [(c \"x\")]) (f I \"\\(\" \"\\)\" [(c \"y\")]) (f D \"\\[\" \"\\]\" [(c \"z\")]) (f D \"$$\" \"$$\" [(c \"w\")]) (f I \"$\" \"$\" [(m \"mbox\" <(g \"{\" \"}\" [(f I \"\\(\" \"\\)\" [(c \"a\")])])>)])" := by
+  decide +kernel
+
+example : unparse exDocF = "$x$ \\(y\\) \\[z\\] $$w$$ $\\mbox{\\(a\\)}$".toList := by decide +kernel
 
 /-- adjacent text items are one chars node for the parser and for `treeOf` alike; the empty context is allowed -/
-example : Core {} [.T ['a'], .T ['b'], .G [.T ['x'], .T ['y']]] = true := by
-  have h : keysCore (ctxKeys {}) = true := by decide
-  have ha : ∀ c ∈ ['a', 'b', 'x', 'y'], isTextChar c = true := by decide
-  simp [Core, h, coreItems, ha]
+example : Core {} [.T ['a'], .T ['b'], .G [.T ['x'], .W [' '], .T ['y']]] = true := by decide +kernel
 
 end C02
 end Pylx
